@@ -277,6 +277,8 @@ def install(host):
     signal.NSIG = {'darwin': 32, 'bsdlike': 129, 'windowslike': 23}.get(host, 200)      # number of signals: 32 Darwin, 65 Linux, 129 FreeBSD
     os.strerror = lambda code: 'host error text %d' % code
     sys.platform = 'darwin' if host == 'darwin' else 'freebsd13'
+    if host in ('scrambled', 'permuted'):
+        sys.byteorder = 'big'          # what the interpreter reports on s390x / ppc64 / sparc64 (read at import time or later)
     os.environ['TZ'] = 'America/Los_Angeles' if host == 'darwin' else 'Asia/Kolkata'
     os.environ['LC_ALL'] = 'C' if host == 'darwin' else 'tr_TR.UTF-8'
     try:
@@ -449,4 +451,9 @@ if __name__ == '__main__':
     res['_clock_reads'] = sorted(CLOCK_READS)
     res['_file_opens'] = sorted(FILE_OPENS)
     res['_file_probes'] = sorted(FILE_PROBES)
-    json.dump(res, sys.stdout)
+    out_path = os.environ._real.get('VERIF_OUT') if hasattr(os.environ, '_real') else os.environ.get('VERIF_OUT')
+    if out_path:                       # (stdout is a terminal in this run: the result goes to a file)
+        with open(out_path, 'w') as fd:
+            json.dump(res, fd)
+    else:
+        json.dump(res, sys.stdout)
